@@ -216,7 +216,9 @@ pub fn generate(seed: u64, idx: u64) -> Scenario {
                 // also send it without close)
                 let lines = rng.range(0, 4);
                 let t = doc_text(&mut rng, &mut counter, lines);
-                s.close(&uri);
+                if rng.chance(700) {
+                    s.close(&uri);
+                }
                 s.open(&uri, &t);
             }
             (Some(_), 18) => {
